@@ -81,9 +81,12 @@ def _decompose(t, tree, ctx):
     ctx.check(got_tips == want_tips, "tips", lambda: f"{got_tips} != {want_tips} (parents {parents})")
     ctx.check(got_furc == want_furc, "furcations", lambda: f"{got_furc} != {want_furc} (parents {parents})")
     for i in range(n):
-        nd = tree.node(i)
-        ctx.check(bool(nd.is_tip()) == (i in want_tips), "node/is_tip", f"node {i}")
-        ctx.check(bool(nd.is_furcation()) == (i in want_furc), "node/is_furcation", f"node {i}")
+        # the handle of node i, however it was obtained: tree.node(i), tree[i], the negative position tree[i - n], a
+        # one-element slice, iteration
+        for how, nd in (("node(i)", tree.node(i)), ("tree[i]", tree[i]), ("tree[i-n]", tree[i - n]),
+                        ("tree[i:i+1][0]", tree[i:i + 1][0])):
+            ctx.check(bool(nd.is_tip()) == (i in want_tips), "node/is_tip", f"node {i} via {how}")
+            ctx.check(bool(nd.is_furcation()) == (i in want_furc), "node/is_furcation", f"node {i} via {how}")
 
     want_br = sorted(models.branches(parents))
     brs = tree.get_branches()
@@ -106,7 +109,7 @@ def _decompose(t, tree, ctx):
             continue
         if parents[i] == -1 and len(ch[i]) == 0:
             continue
-        got = tuple(int(v) for v in tree.node(i).branch().origin_id())
+        got = tuple(int(v) for v in (tree.node(i) if i % 2 else tree[i - n]).branch().origin_id())
         want = [b for b in want_br if i in b[1:] or (parents[i] == -1 and b[0] == i)]
         ctx.check(len(want) == 1 and got == want[0], "node/branch",
                   lambda: f"node {i}: got {got}, expected {want} (parents {parents})")
